@@ -1658,9 +1658,9 @@ class Message(ABC):
                     )
                 elif sub_cls == timedelta:
                     value = (
-                        [timedelta(seconds=float(item[:-1])) for item in value]
+                        [_Duration.delta_from_json(item) for item in value]
                         if isinstance(value, list)
-                        else timedelta(seconds=float(value[:-1]))
+                        else _Duration.delta_from_json(value)
                     )
                 elif not meta.wraps:
                     value = (
@@ -2062,6 +2062,15 @@ class _Duration(Duration):
 
     def to_timedelta(self) -> timedelta:
         return timedelta(seconds=self.seconds, microseconds=self.nanos / 1e3)
+
+    @staticmethod
+    def delta_from_json(value: str) -> timedelta:
+        # decimal seconds with an "s" suffix; parsed without going through float,
+        # which cannot hold microseconds for spans beyond 2**53 microseconds
+        sign = -1 if value.startswith("-") else 1
+        seconds, _, fraction = value[:-1].lstrip("+-").partition(".")
+        micros = int((fraction + "000000")[:6])
+        return sign * timedelta(seconds=int(seconds or 0), microseconds=micros)
 
     @staticmethod
     def delta_to_json(delta: timedelta) -> str:
